@@ -242,7 +242,35 @@ impl Check for C06 {
             // special shapes: deep nesting, huge literals, zero divisors
             7 => {
                 let mut t = Txn::new(Date::new(2024, 1, 1), "special");
-                match rng.below(6) {
+                match rng.below(7) {
+                    6 => {
+                        // layout corners of `format`: accounts wider than every column the printer
+                        // aligns to, in each shape a posting can take
+                        class = "wide-layout";
+                        let wide = [
+                            "Assets:Retirement:Pillar 3a:Provider With A Very Long Name:Contributions 2024",
+                            "資産:立替金:長い名前の勘定科目:さらに長い補助科目名:もっと長い補助科目の名前です",
+                            "Expenses:A Name That Is Exactly Wide Enough To Reach Col",
+                        ];
+                        let acct = wide[rng.usize(wide.len())];
+                        let mut p = Posting::new(acct);
+                        match rng.below(4) {
+                            0 => p.assertion = Some(Expr::lit("250.00", "CHF")),
+                            1 => {
+                                p.amount = Some(Expr::lit("1", "CHF"));
+                                p.assertion = Some(Expr::lit("250.00", "CHF"));
+                            }
+                            2 => {
+                                p.amount = Some(Expr::lit("-1,234,567.89", "CHF"));
+                                p.cost = Some(Exchange { total: rng.chance(1, 2), expr: Expr::lit("3", "EUR") });
+                            }
+                            _ => p.assertion = Some(Expr::lit("0", "")),
+                        }
+                        p.comment = if rng.chance(1, 3) { Some("note".to_string()) } else { None };
+                        t.postings.push(p);
+                        t.postings.push(Posting::new("Equity:Opening"));
+                        world.files[0].push(Entry::Txn(t));
+                    }
                     5 => {
                         // a residual that rounds away under a declared format, next to one other
                         // commodity: the implied exchange would divide by the rounded total
